@@ -29,6 +29,22 @@ import (
 
 const modPath = "github.com/reactivego/ivg"
 
+// objectLike: named interface types on whose values the module's code calls methods (raster.Rasterizer, ivg.Destination,
+// …).  A value of such a type is an abstract object (see invoke).  A value of any OTHER interface type is only stored,
+// compared with nil and handed on: it is a handle, `Go.Ref` — for `&z.field` converted to an interface, the field's path.
+var objectLike = map[string]bool{}
+
+func isHandleType(ty types.Type) bool {
+	n, ok := ty.(*types.Named)
+	if !ok {
+		return false
+	}
+	if _, isI := n.Underlying().(*types.Interface); !isI || n.Obj().Pkg() == nil {
+		return false
+	}
+	return !objectLike[n.Obj().Pkg().Path()+"."+n.Obj().Name()]
+}
+
 type unsupported struct{ why string }
 
 // pathPanics: the instruction being translated panics on this path (a call of the nil function)
@@ -124,6 +140,9 @@ func (t *translator) leanType(ty types.Type) string {
 					return "Go.Err"
 				}
 				fail("interface type %s", u)
+			}
+			if isHandleType(u) {
+				return "Go.Ref"
 			}
 			name := pkgShort(u.Obj().Pkg()) + "_" + u.Obj().Name()
 			if _, seen := t.ifaces[name]; !seen {
@@ -274,6 +293,9 @@ func (t *translator) zero(ty types.Type) string {
 	case *types.Interface:
 		if isErrorType(ty) {
 			return "(none : Go.Err)"
+		}
+		if isHandleType(ty) {
+			return "(Go.ref \"\")"
 		}
 	}
 	fail("zero value of %s", ty)
@@ -640,6 +662,9 @@ func (c *ctx) constExpr(k *ssa.Const) sym {
 		if _, isSig := ty.Underlying().(*types.Signature); isSig {
 			return sym{fnNil: true, typ: ty}
 		}
+		if isHandleType(ty) {
+			return sym{expr: "(Go.ref \"\")", typ: ty}
+		}
 		if _, isI := ty.Underlying().(*types.Interface); isI && !isErrorType(ty) {
 			return sym{fnNil: true, typ: ty} // the nil interface value: only compared against
 		}
@@ -975,6 +1000,9 @@ func (c *ctx) binop(s *state, b *ssa.BinOp) string {
 
 // intOnly: values of this type are equal in Go exactly when they are equal as Lean values
 func intOnly(ty types.Type) bool {
+	if isHandleType(ty) {
+		return true
+	}
 	switch u := ty.Underlying().(type) {
 	case *types.Basic:
 		return u.Info()&(types.IsInteger|types.IsBoolean|types.IsString) != 0
@@ -1098,7 +1126,7 @@ func (c *ctx) instr(s *state, in ssa.Instruction, d int) {
 				s.env[x] = sym{ptr: &ptrv{cell: tc, path: cl.ptrVal.path}, typ: x.Type()}
 				return
 			}
-			if _, isIface := x.Type().Underlying().(*types.Interface); isIface && !isErrorType(x.Type()) {
+			if _, isIface := x.Type().Underlying().(*types.Interface); isIface && !isErrorType(x.Type()) && !isHandleType(x.Type()) {
 				// an interface value is handled as a reference to the place it was read from (its abstract state lives there)
 				c.t.leanType(x.Type())
 				s.env[x] = sym{ptr: &ptrv{cell: cl, path: p.ptr.path}, typ: x.Type(), iface: true}
@@ -1365,6 +1393,22 @@ func (c *ctx) instr(s *state, in ssa.Instruction, d int) {
 		// a concrete first-order value converted to an interface: supported only when it goes straight to `return`
 		// (the function then returns the concrete value; every return must box the same concrete type)
 		v := c.val(s, x.X)
+		if v.ptr != nil && !v.iface && isHandleType(x.Type()) {
+			// `&z.field` converted to an interface that the code only hands on: the field's path
+			cl := s.cells[v.ptr.cell.id]
+			if cl == nil || cl.param < 0 || len(v.ptr.path) == 0 {
+				fail("interface value of a pointer that is not into a parameter")
+			}
+			var names []string
+			for _, st := range v.ptr.path {
+				if st.field < 0 {
+					fail("interface value of a pointer to an array element")
+				}
+				names = append(names, st.name)
+			}
+			s.env[x] = sym{expr: "(Go.ref \"" + strings.Join(names, ".") + "\")", typ: x.Type()}
+			return
+		}
 		if v.ptr != nil || v.fn != nil || v.comps != nil || v.iface || !firstOrder(x.X.Type()) {
 			fail("*ssa.MakeInterface")
 		}
@@ -1744,7 +1788,7 @@ func firstOrder(ty types.Type) bool {
 	case *types.Basic:
 		return u.Kind() != types.UnsafePointer
 	case *types.Interface:
-		return isErrorType(ty)
+		return isErrorType(ty) || isHandleType(ty)
 	case *types.Struct:
 		for i := 0; i < u.NumFields(); i++ {
 			if !firstOrder(u.Field(i).Type()) {
@@ -2605,7 +2649,7 @@ func (t *translator) translateSpec(fn *ssa.Function, spec map[int]*ssa.Function)
 				}
 				continue
 			}
-			if _, isI := p.Type().Underlying().(*types.Interface); isI && !isErrorType(p.Type()) {
+			if _, isI := p.Type().Underlying().(*types.Interface); isI && !isErrorType(p.Type()) && !isHandleType(p.Type()) {
 				// an interface parameter is an abstract object (see invoke); it is taken to be non-nil
 				if _, named := p.Type().(*types.Named); !named {
 					fail("parameter of unnamed interface type")
@@ -2628,7 +2672,7 @@ func (t *translator) translateSpec(fn *ssa.Function, spec map[int]*ssa.Function)
 			}
 			switch p.Type().Underlying().(type) {
 			case *types.Interface, *types.Signature, *types.Map, *types.Chan:
-				if !isErrorType(p.Type()) {
+				if !isErrorType(p.Type()) && !isHandleType(p.Type()) {
 					fail("parameter of type %s", p.Type())
 				}
 			}
@@ -2704,7 +2748,7 @@ func (t *translator) translateSpec(fn *ssa.Function, spec map[int]*ssa.Function)
 		}
 		_, isPtr := p.Type().Underlying().(*types.Pointer)
 		_, isI := p.Type().Underlying().(*types.Interface)
-		if isPtr || (isI && !isErrorType(p.Type())) || fi.written[i] {
+		if isPtr || (isI && !isErrorType(p.Type()) && !isHandleType(p.Type())) || fi.written[i] {
 			for _, io := range fi.inputs {
 				if io.param == i {
 					ps = append(ps, fmt.Sprintf("(%s : %s)", io.name, t.leanType(io.typ)))
@@ -2775,6 +2819,20 @@ func main() {
 		targets = append(targets, fn)
 	}
 	sort.Slice(targets, func(i, j int) bool { return targets[i].String() < targets[j].String() })
+	for _, fn := range targets {
+		for _, b := range fn.Blocks {
+			for _, in := range b.Instrs {
+				if call, ok := in.(ssa.CallInstruction); ok && call.Common().IsInvoke() {
+					// (interfaces of the module only: values of library interfaces — image.Image, color.Color — are handles
+					// even if some untranslatable function calls a method on one)
+					if n, ok := call.Common().Value.Type().(*types.Named); ok && n.Obj().Pkg() != nil &&
+						(n.Obj().Pkg().Path() == modPath || strings.HasPrefix(n.Obj().Pkg().Path(), modPath+"/")) {
+						objectLike[n.Obj().Pkg().Path()+"."+n.Obj().Name()] = true
+					}
+				}
+			}
+		}
+	}
 	for _, fn := range targets {
 		fi := t.translate(fn)
 		// a function that takes a printing callback (`p printer`, called only under `if p != nil`) is also translated
